@@ -100,6 +100,8 @@ func checkC04(w *World, r *Report) {
 	r.Rule("R04.3", "secure flag set only after a successful TLS handshake; TLS connection returned", 2)
 	r.Rule("R04.4", "StartTLS is all-or-nothing on both roles; advertised only when not already secure", 3)
 	r.Rule("R04.5", "secure flag / TLS carrier correlation at every endpoint", 9)
+	r.Rule("R04.6", "Connect never rewrites the configured scheme: a reconnect of a +tls upstream is a TLS connect again", 5)
+	ruleSchemeImmutable(w, r, "R04.6")
 
 	sites, problems := findConnectSites(w)
 	for _, p := range problems {
